@@ -31,6 +31,8 @@ func runC08(c *core.Ctx) {
 	h.voterCacheFreshness("C08.5 voter-cache")
 	h.leaderInitEstablishes("C08.5b voter-cache", "leader.numVoters")
 	h.configActionProgress("C08.7 membership-effect", "effect")
+	h.nextActionTable("C08.8 next-action-table")
+	h.configSetters("C08.9 config-setters")
 	c.Clause("C08.6 configurations rebuilt on restart: newest configuration entry above the snapshot is Latest, next is Committed, snapshot label as fallback")
 	h.openStorageRebuild("C08.6 restart-rebuild")
 }
@@ -44,6 +46,7 @@ func runC11(c *core.Ctx) {
 	h.majorityOverVoters("C11.2a majority")
 	h.voterCacheFreshness("C11.2b voter-cache")
 	h.leaderInitEstablishes("C11.2c voter-cache", "leader.numVoters")
+	h.configSetters("C11.2d config-setters")
 	h.configActionProgress("C11.3b promotion-rounds", "rounds")
 	c.Clause("C11.3 promotion only after a finished, fast-enough round; rounds finish only at their target")
 	h.promotionGate("C11.3 promotion")
